@@ -5,7 +5,8 @@
    toast_tile_get_coords_is_centres (k = 8 on the tile of any position, both systems),
    subsample_hash_image.  Real layer: second half of this file. *)
 From Coq Require Import List NArith Arith Bool.
-From Toasty Require Import Model.Quadtree Model.ToastTerm Proofs.ToastTermP.
+From Coq Require Import Reals.
+From Toasty Require Import Model.Quadtree Model.ToastTerm Proofs.ToastTermP Geom.Cone Geom.ToastReal.
 Import ListNotations.
 Local Open Scope N_scope.
 
@@ -51,3 +52,52 @@ Example pixel_grid_nonvacuous :
   pt_eqb (subsample Mid 2 (c_ul t) (c_ur t) (c_lr t) (c_ll t) (incr t) 3 1)
          (centre Mid (tile_at Base Mid Astro (mkPos 4 5 11))) = false.
 Proof. vm_compute. split; reflexivity. Qed.
+
+(* ====================================================================================
+   Real layer (see Properties/C04.v for the vocabulary: eval, rmid, inU). *)
+
+(* the pixel's direction in R^3 is the centre of the real tile eight levels deeper (equality,
+   since evaluation identifies Mid a b and Mid b a) ... *)
+Theorem pixel_is_deeper_centre :
+  forall cs p i j, (1 <= pn p)%nat -> i < 256 -> j < 256 ->
+  eval (tile_coords Mid (tile_at Base Mid cs p) i j) =
+  centre rmid (tile_at rbase rmid cs (mkPos (8 + pn p) (256 * px p + j) (256 * py p + i))).
+Proof. exact pixel_is_centre_real. Qed.
+Print Assumptions pixel_is_deeper_centre.
+
+(* ... and lies inside its tile *)
+Theorem centre_inside :
+  forall cs p k j i, valid p = true -> (1 <= pn p)%nat ->
+  inU (tile_at rbase rmid cs p) (centre rmid (desc rmid (tile_at rbase rmid cs p) k j i)).
+Proof. exact centre_inside_all. Qed.
+Print Assumptions centre_inside.
+
+Theorem pixel_centre_inside_tile :
+  forall cs p i j, valid p = true -> (1 <= pn p)%nat -> i < 256 -> j < 256 ->
+  inU (tile_at rbase rmid cs p) (eval (tile_coords Mid (tile_at Base Mid cs p) i j)).
+Proof. exact pixel_in_tile. Qed.
+Print Assumptions pixel_centre_inside_tile.
+
+(* Latitude clause -- PARTIAL.  sin(lat) of a direction is its y coordinate.  Proved: the
+   EQUATORWARD bound -- a tile whose corners all have sin(lat) >= m >= 0 (resp. <= -m) has every
+   pixel centre with sin(lat) >= m (resp. <= -m); spherical caps smaller than a hemisphere are
+   convex (cap_convexity, for any axis e).
+   MISSING (no proof in this development): the POLEWARD bound, pixel latitude <= the largest
+   corner latitude (resp. >= the smallest), and hence the full "within the latitude range spanned
+   by the corners"; no inductive invariant for iterated midpoints was found.  The harness
+   validates the full range numerically (every pixel of every tile to depth 3/5, both systems). *)
+Theorem lat_range_partial :
+  forall cs p i j (m : R),
+  valid p = true -> (1 <= pn p)%nat -> i < 256 -> j < 256 -> (0 <= m)%R ->
+  let t := tile_at rbase rmid cs p in
+  let px := eval (tile_coords Mid (tile_at Base Mid cs p) i j) in
+  ((m <= vy (c_ul t) /\ m <= vy (c_ur t) /\ m <= vy (c_lr t) /\ m <= vy (c_ll t))%R -> (m <= vy px)%R) /\
+  ((vy (c_ul t) <= - m /\ vy (c_ur t) <= - m /\ vy (c_lr t) <= - m /\ vy (c_ll t) <= - m)%R -> (vy px <= - m)%R).
+Proof. exact pixel_lat_equatorward. Qed.
+Print Assumptions lat_range_partial.
+
+Theorem cap_convexity :
+  forall e m (t : gtile vec) k x y, (0 <= m)%R -> in_cap e m t ->
+  (m <= dot e (centre rmid (desc rmid t k x y)))%R.
+Proof. exact cap_bound_centres. Qed.
+Print Assumptions cap_convexity.
